@@ -123,6 +123,16 @@ func (ex *Exec) load(fr *Frame, st *State, addr Val, t types.Type) Val {
 		if ex.spec == 0 {
 			ex.addFacts(nil, fs)
 		}
+		if ex.spec == 0 || ex.olderAtLoad {
+			// a pointer read from the heap refers to an object that exists now: it differs from
+			// every object allocated from here on (also recorded for the reads of the invariants
+			// assumed at a loop head)
+			for _, l := range flatten(v, nil) {
+				if l.Sort == SPtr && !l.hasBound && (l.Op == "select" || l.Op == "ite") {
+					ex.fact(nil, ex.olderThanNow(l))
+				}
+			}
+		}
 		return v
 	}
 	unsupp("load through %T", addr)
@@ -501,7 +511,9 @@ func (ex *Exec) ifaceEq(x, y *Agg) *Term {
 	// Dynamic values: for pointer-shaped dynamic types equality is tag and payload identity; for
 	// boxed (non-pointer) dynamic types identical boxes are sufficient but not necessary.
 	same := And(Eq(xt, yt), Or(Eq(xt, IntT(0)), Eq(x.F[1].(*Term), y.F[1].(*Term))))
-	r := Fresh("ifaceeq", SBool)
+	// an uninterpreted predicate of the four components (so it may depend on quantifier-bound
+	// variables occurring in them), bounded from both sides
+	r := UF("ifaceeq", SBool, xt, x.F[1].(*Term), yt, y.F[1].(*Term))
 	boxed := UF("boxedtag", SBool, xt)
 	ex.fact(nil, Implies(same, r))
 	ex.fact(nil, Implies(r, And(Eq(xt, yt), Or(boxed, Eq(xt, IntT(0)), Eq(x.F[1].(*Term), y.F[1].(*Term))))))
